@@ -275,6 +275,10 @@ func ruleC08(c *Ctx) {
 				}
 			case k.String() != key:
 				this = stateOf(false, vocabOf(key), k)
+				if k.contains(func(x *Term) bool { return x.Op == "global" || x.Op == "phi" && x.Cyc }) {
+					// the key went through package-level memory (an interning table): an equal text may come back
+					this = unknown
+				}
 				thisWhy = "count keyed by " + short(k.String()) + ", want the window's content"
 			case v.String() == inc:
 				this = holds
